@@ -290,6 +290,11 @@ func Ite(cond string, a, b *Term) *Term {
 		cond = cond[2 : len(cond)-1]
 		a, b = b, a
 	}
+	// an inner choice on the same condition is already decided in each arm
+	a, b = a.underCond(cond, true), b.underCond(cond, false)
+	if a.Equal(b) {
+		return a
+	}
 	// factor the common part; the else-arm's constant always moves out, so that
 	// ite(c ? 16 : 12) and 12 + ite(c ? 4 : 0) have the same normal form
 	common := Const(b.C)
@@ -307,6 +312,37 @@ func Ite(cond string, a, b *Term) *Term {
 		}
 	}
 	return common.Add(FromAtom(&Atom{Kind: "ite", Cond: cond, Sub: []*Term{ra, rb}}))
+}
+
+// underCond replaces every ite atom on exactly this (positively stored) condition by the arm taken.
+func (t *Term) underCond(cond string, holds bool) *Term {
+	has := false
+	var look func(x *Term)
+	look = func(x *Term) {
+		for _, a := range x.Atoms {
+			if a.Kind == "ite" && a.Cond == cond {
+				has = true
+			}
+			for _, sub := range a.Sub {
+				if sub != nil {
+					look(sub)
+				}
+			}
+		}
+	}
+	look(t)
+	if !has {
+		return t
+	}
+	return t.Map(func(a *Atom) *Term {
+		if a.Kind == "ite" && a.Cond == cond {
+			if holds {
+				return a.Sub[0]
+			}
+			return a.Sub[1]
+		}
+		return nil
+	})
 }
 
 func Sum(path string, body *Term) *Term {
